@@ -1,6 +1,7 @@
 (* C12 — replication is exactly-once per partition across restarts and reconnects. *)
 From Coq Require Import List Arith Bool Lia Sorting.Permutation.
 From Zeno Require Import Repl ReplP.
+From Zeno Require Offsets OffsetsP.
 Import ListNotations.
 
 (* For every history of inserts, leader reads, deliveries, joins, flushes, clean stops, kills, restarts, directory
@@ -61,6 +62,17 @@ Theorem C12_nonvacuous : exists parts ops, run_ok (init parts) ops = true /\
   let s := settle (run (init parts) ops) in quiescent s = true /\ exists f, nth_error (s_fols s) 0 = Some f /\ 3 <= length (content f).
 Proof. exact nonvacuous. Qed.
 
+(* the per-source offsets a follower announces and a leader resumes from are combined by
+   common.OffsetsBySource.Advance (Model/Offsets.v): source by source the later of the two offsets, so no offset ever moves
+   backwards, whichever operand is nil, and the order of combination does not matter to any reader *)
+Theorem C12_offsets_advance : forall s a b, OffsetsP.wf_obs b -> OffsetsP.nonneg a -> OffsetsP.nonneg b ->
+  Offsets.olook s (Offsets.advance a b) = Offsets.off_max (Offsets.olook s a) (Offsets.olook s b).
+Proof. exact OffsetsP.advance_read. Qed.
+Theorem C12_offsets_never_move_backwards : forall s a b, OffsetsP.wf_obs b -> OffsetsP.nonneg a -> OffsetsP.nonneg b ->
+  OffsetsP.off_le (Offsets.olook s a) (Offsets.olook s (Offsets.advance a b))
+  /\ OffsetsP.off_le (Offsets.olook s b) (Offsets.olook s (Offsets.advance a b)).
+Proof. exact OffsetsP.advance_ge. Qed.
+
 Print Assumptions C12_follower_content.
 Print Assumptions C12_exactly_once.
 Print Assumptions C12_redundant_converge.
@@ -70,3 +82,5 @@ Print Assumptions C12_caught_up_is_reachable.
 Print Assumptions C12_settled_content.
 Print Assumptions C12_precondition_needed.
 Print Assumptions C12_nonvacuous.
+Print Assumptions C12_offsets_advance.
+Print Assumptions C12_offsets_never_move_backwards.
